@@ -365,7 +365,10 @@ impl Mon {
             let dt = (info.now - pre.last_update).max(0);
             let sv_changed = qp.asv != qq.asv || qp.lsv != qq.lsv;
             let mut eps = (&qq.asv + &qq.lsv + ri(2)) * ri(64) * ulp();
-            if sv_changed {
+            // an accrual ran whenever time has passed, also when the interest was too small to move
+            // the share values (the fee buckets may still have moved by a fraction of a unit)
+            let fees_moved = qp.fees() != qq.fees();
+            if sv_changed || (dt > 0 && fees_moved) {
                 eps += accrual_allowance(&qp, &qq, dt);
             }
             let shortfall = &d_req - &d_v;
